@@ -234,6 +234,15 @@ fn language_job(ctx: &Ctx, job: usize, iters: u64) -> Stats {
             };
             st.bump("quantifier_over_the_fixed_point_variable_only");
         }
+        if rng.chance(1, 12) {
+            // the existential and the universal quantification of ONE body side by side
+            let v: Vec<&str> = (0..1 + rng.usize(2)).map(|_| names[rng.usize(k)]).collect();
+            let mut v2 = v.clone();
+            v2.reverse();
+            let op = *rng.pick(&["&", "|", "=>", "<=>", "^"]);
+            body = format!("(exists {} # ({})) {} (forall {} # ({}))", v.join(", "), body, op, v2.join(", "), body);
+            st.bump("exists_and_forall_of_one_body");
+        }
         let len = rng.usize(4);
         let extra = ["zz", "p", "q", "r", "s", "yy"];
         let mut list: Vec<String> = (0..len).map(|_| rng.pick(&extra).to_string()).collect();
